@@ -1463,6 +1463,9 @@ class Popen(Process):
                 raise AttributeError(msg) from None
 
     def wait(self, timeout=None):
+        if timeout is not None and not timeout >= 0:
+            msg = "timeout must be a positive integer"
+            raise ValueError(msg)
         if self.__subproc.returncode is not None:
             return self.__subproc.returncode
         ret = super().wait(timeout)
